@@ -115,5 +115,40 @@ Proof.
   replace (S (2 * m + 1)) with (2 * S m)%nat by lia. lra.
 Qed.
 
+(* sum over the series index with a single surviving (even) frequency *)
+Lemma pick_even T m (beta : nat -> R) c :
+  rsum T (fun jj => beta jj * (if (2 * (jj + 1) =? m)%nat then c else 0))
+  = if (Nat.even m && (1 <=? m / 2) && (m / 2 <=? T))%nat then beta (m / 2 - 1)%nat * c else 0.
+Proof.
+  destruct (Nat.Even_or_Odd m) as [[i ->]|[i ->]].
+  - replace (2 * i / 2)%nat with i by (rewrite Nat.mul_comm, Nat.div_mul; lia).
+    rewrite Nat.even_mul. cbn [andb].
+    destruct (Nat.leb_spec 1 i) as [Hi|Hi]; cbn [andb].
+    + rewrite (rsum_ext T _ (fun jj => if (jj =? i - 1)%nat then beta jj * c else 0)).
+      2:{ intros jj _. destruct (Nat.eqb_spec (2 * (jj + 1)) (2 * i)); destruct (Nat.eqb_spec jj (i - 1)); try lia; ring. }
+      destruct (Nat.leb_spec i T) as [HT|HT].
+      * apply (rsum_pick T (i - 1) (fun jj => beta jj * c)). lia.
+      * apply rsum_pick_none. lia.
+    + apply rsum_zero. intros jj _. destruct (Nat.eqb_spec (2 * (jj + 1)) (2 * i)); [lia|ring].
+  - replace (Nat.even (2 * i + 1)) with false by (rewrite Nat.even_add, Nat.even_mul; reflexivity).
+    cbn [andb]. apply rsum_zero. intros jj _. destruct (Nat.eqb_spec (2 * (jj + 1)) (2 * i + 1)); [lia|ring].
+Qed.
+
+Lemma pick_odd T a (gam : nat -> R) c :
+  rsum T (fun jj => gam jj * (if (2 * jj + 1 =? a)%nat then c else 0))
+  = if (Nat.odd a && (a / 2 <? T))%nat then gam (a / 2)%nat * c else 0.
+Proof.
+  destruct (Nat.Even_or_Odd a) as [[i ->]|[i ->]].
+  - replace (Nat.odd (2 * i)) with false by (rewrite Nat.odd_mul; reflexivity). cbn [andb].
+    apply rsum_zero. intros jj _. destruct (Nat.eqb_spec (2 * jj + 1) (2 * i)); [lia|ring].
+  - replace ((2 * i + 1) / 2)%nat with i by (apply Nat.div_unique with 1%nat; lia).
+    replace (Nat.odd (2 * i + 1)) with true by (rewrite Nat.odd_add, Nat.odd_mul; reflexivity). cbn [andb].
+    rewrite (rsum_ext T _ (fun jj => if (jj =? i)%nat then gam jj * c else 0)).
+    2:{ intros jj _. destruct (Nat.eqb_spec (2 * jj + 1) (2 * i + 1)); destruct (Nat.eqb_spec jj i); try lia; ring. }
+    destruct (Nat.ltb_spec i T) as [HT|HT].
+    + apply (rsum_pick T i (fun jj => gam jj * c)). exact HT.
+    + apply rsum_pick_none. exact HT.
+Qed.
+
 Lemma INR_pos_nz n : (1 <= n)%nat -> INR n <> 0.
 Proof. intros H. apply not_0_INR. lia. Qed.
